@@ -185,6 +185,9 @@ def _gen_patterns(rng, nr, nc, H, W, surface, dtype):
     if dt.kind in "iu":
         A = np.maximum(1, np.round(A * (1000.0 if dt.itemsize >= 2 else 4.0)))  # counts, >= 1 (positive)
         A = np.minimum(A, np.iinfo(dt).max)
+    else:
+        # the centre of mass does not depend on the units of the intensities: counts, beam fractions (pattern sum << 1), large counts
+        A = A * float(10.0 ** rng.choice([-6, -3, -1, 0, 0, 3]))
     return A.astype(dt)
 
 
@@ -415,6 +418,9 @@ def _run_shift(spec, idx, ctx):
     route, mode = spec["route"], spec["mode"]
     if route == "constant_fit":
         org = np.tile(np.array([[int(rng.integers(H)), int(rng.integers(W))]]), (n, 1))
+    elif idx % 3 == 0:
+        # integer origins beyond the detector (corner-centred data, a descan plane extrapolating past the edge): the roll is still defined
+        org = np.stack([rng.integers(-H, 2 * H, size=n), rng.integers(-W, 2 * W, size=n)], 1)
     else:
         org = np.stack([rng.integers(0, H, size=n), rng.integers(0, W, size=n)], 1)
     if route == "dataset":
